@@ -11,6 +11,8 @@ def real_transports(res):
     """every endpoint behaviour x sync/async x progress asked or not x {WebSocket, RawSocket} x {json, msgpack, cbor} x {Twisted, asyncio}:
     a real ApplicationSession on a real client transport against the scripted router; WampSessionTrace.TInvReal judges the wire"""
     cases = [[k, s, b, a, rp] for k in ("ws", "rs") for s in ("json", "msgpack", "cbor") for b in BEHS for a in (False, True) for rp in (False, True)]
+    # the variant of each behaviour (which CallResult shape, which exception class, a value exactly at / one past the size limit)
+    cases = [c + [i // 2 + res.seed] for i, c in enumerate(cases)]
     jobs = [("invreal_drv", [], common.driver_env(fw=fwn, seed=res.seed), dict(cases=cases)) for fwn in ("tx", "aio")]
     outs = common.run_drivers_parallel(jobs)
     traces, meta = [], []
@@ -20,7 +22,7 @@ def real_transports(res):
             traces.append(t)
             meta.append(o["fw"])
             e = t[0]
-            res.distinct_key([o["fw"], "real", e["kind"], e["ser"], e["beh"], e["isAsync"], e["rp"]])
+            res.distinct_key([o["fw"], "real", e["kind"], e["ser"], e["beh"], e["isAsync"], e["rp"], e["var"] % 12])
     v = tlc.validate_traces("WampSessionTrace", "WampSessionTrace.cfg", traces, shards=4)
     res.traces += v["n"]
     for idx, l in v["rejected"][:25]:
